@@ -303,6 +303,9 @@ unsafe impl GlobalAlloc for Ledger {
             let mut b = raw + lead;
             if par == 1 {
                 b += 1;
+            } else if par == 3 {
+                // even, but not a multiple of 8 (not even of 4): a byte buffer owes nobody an alignment
+                b += 2;
             }
             base = b;
             std::ptr::write_bytes(p, RZ_BYTE, total);
